@@ -319,7 +319,7 @@ def check_case(c):
             res.label("has-rejected")
         # the command line: aegean IMAGE --priorized STAGE --input CATALOGUE --table OUT gives the same rows as the API
         # called with the same catalogue file
-        if c.get("cli") and not res.violations and len(cat) <= 60:
+        if c.get("cli") and not res.violations and 1 <= len(cat) <= 60:
             from AegeanTools.catalogs import save_catalog
             from vlib.cli import run_aegean
             save_catalog(os.path.join(d, "input.csv"), [copy.deepcopy(s_) for s_ in shuffled])
